@@ -134,8 +134,16 @@ check("C06", "model_checking",
       "the transport is a fake http.RoundTripper (the redirect logic of net/http is real); failed exchanges are held only to the failure clauses",
       "TLA+ case analysis enumerated by TLC, exported cases replayed on the real hit path, TLC trace validation", "DESIGN.md section 5 (C06)")
 
+check("C15", "model_checking",
+      "TargeterConc.tla models a call as Call / Lin (inside the targeter's critical section) / Decode (outside) / Ret for the three locking disciplines of "
+      "the code; TLC explores every interleaving of 3 callers over 4 targets: each target exactly once, no mixture, exhaustion for good, static rotation "
+      "floor/ceil; a shared line buffer is shown to break it. 1..64 goroutines then draw from the real http/JSON/static targeters (documents larger than "
+      "the read buffer), built without and with -race; every draw is classified and the run validated by TLC; race reports count as violations.",
+      "real scheduling samples interleavings; a target is 'mixed' when its URL/method/headers/body do not agree on one input id",
+      "TLA+ linearization model (TLC exhaustive) + TLC trace validation of concurrent runs, Go race detector", "DESIGN.md section 8 (C15)")
+
 UNDER = "check under construction in this round (specification and driver not committed yet)"
-for p in ["C15", "C18"]:
+for p in ["C18"]:
     NA[p] = UNDER
 NA["C16"] = ("arbitrary-byte crash/hang freedom of parsers has no abstract state machine to specify; deciding it means fuzzing, "
              "a different technique (DESIGN.md section 9)")
